@@ -185,3 +185,39 @@ package treemap
 //@     invariant ItInv(iterator) && Cur(iterator) <= old(Cur(iterator))
 //@     invariant forall j :: Cur(iterator) <= j && j < old(Cur(iterator)) && 0 <= j ==> !f(redblacktree.KeyAt(iterator.iterator.tree, j), redblacktree.ValAt(iterator.iterator.tree, j))
 //@     decreases Cur(iterator) + 1
+
+// ---- JSON (C11 round trip, C12 replace / sound / atomic) ----
+
+//@ func Map.ToJSON
+//@   requires Inv(m)
+//@   modifies nothing
+//@   ensures [C11 C17 C18] result1 == nil && fresh(arr(result0)) && jobj_kind(result0, argof(m.tree.Comparator, 0), m.tree.Root.Value) == 3 && jobj_card(result0, argof(m.tree.Comparator, 0), m.tree.Root.Value) == N(m)
+//@   ensures [C11] content: forall i :: 0 <= i && i < N(m) ==> jobj_has(result0, KeyAt(m, i), m.tree.Root.Value) && jobj_val(result0, KeyAt(m, i), m.tree.Root.Value) == ValAt(m, i)
+//@   ensures [C11] only: forall k like argof(m.tree.Comparator, 0) :: jobj_has(result0, k, m.tree.Root.Value) ==> Has(m, k) && KeyAt(m, m.tree.rank[k]) == k
+
+//@ func Map.MarshalJSON
+//@   requires Inv(m)
+//@   modifies nothing
+//@   ensures [C11 C17 C18] result1 == nil && fresh(arr(result0)) && jobj_kind(result0, argof(m.tree.Comparator, 0), m.tree.Root.Value) == 3 && jobj_card(result0, argof(m.tree.Comparator, 0), m.tree.Root.Value) == N(m)
+//@   ensures [C11] content: forall i :: 0 <= i && i < N(m) ==> jobj_has(result0, KeyAt(m, i), m.tree.Root.Value) && jobj_val(result0, KeyAt(m, i), m.tree.Root.Value) == ValAt(m, i)
+//@   ensures [C11] only: forall k like argof(m.tree.Comparator, 0) :: jobj_has(result0, k, m.tree.Root.Value) ==> Has(m, k) && KeyAt(m, m.tree.rank[k]) == k
+
+//@ func Map.FromJSON
+//@   requires Inv(m)
+//@   modifies m.tree.Root, m.tree.size, m.tree.n, m.tree.nodes, m.tree.rank
+//@   modifies each x like m.tree.Root where x.tr == m.tree : x.Left, x.Right, x.Parent, x.a, x.b, x.color, x.Key, x.Value, x.pos, x.tr
+//@   ensures [C12 C17] Inv(m) && Config(m) && (result == nil <==> jobj_kind(data, argof(m.tree.Comparator, 0), m.tree.Root.Value) >= 2)
+//@   ensures [C12] atomic: result != nil ==> N(m) == old(N(m)) && (forall i :: 0 <= i && i < N(m) ==> KeyAt(m, i) == old(KeyAt(m, i)) && ValAt(m, i) == old(ValAt(m, i)))
+//@   ensures [C11 C12] loaded-all: jobj_kind(data, argof(m.tree.Comparator, 0), m.tree.Root.Value) == 3 ==> (forall k like argof(m.tree.Comparator, 0) :: jobj_has(data, k, m.tree.Root.Value) ==> Has(m, k))
+//@   ensures [C11 C12] loaded-only: jobj_kind(data, argof(m.tree.Comparator, 0), m.tree.Root.Value) == 3 ==> (forall i :: 0 <= i && i < N(m) ==> jobj_has(data, KeyAt(m, i), m.tree.Root.Value) && ValAt(m, i) == jobj_val(data, KeyAt(m, i), m.tree.Root.Value))
+//@   ensures [C12] null: jobj_kind(data, argof(m.tree.Comparator, 0), m.tree.Root.Value) == 2 ==> N(m) == 0
+
+//@ func Map.UnmarshalJSON
+//@   requires Inv(m)
+//@   modifies m.tree.Root, m.tree.size, m.tree.n, m.tree.nodes, m.tree.rank
+//@   modifies each x like m.tree.Root where x.tr == m.tree : x.Left, x.Right, x.Parent, x.a, x.b, x.color, x.Key, x.Value, x.pos, x.tr
+//@   ensures [C12 C17] Inv(m) && Config(m) && (result == nil <==> jobj_kind(bytes, argof(m.tree.Comparator, 0), m.tree.Root.Value) >= 2)
+//@   ensures [C12] atomic: result != nil ==> N(m) == old(N(m)) && (forall i :: 0 <= i && i < N(m) ==> KeyAt(m, i) == old(KeyAt(m, i)) && ValAt(m, i) == old(ValAt(m, i)))
+//@   ensures [C11 C12] loaded-all: jobj_kind(bytes, argof(m.tree.Comparator, 0), m.tree.Root.Value) == 3 ==> (forall k like argof(m.tree.Comparator, 0) :: jobj_has(bytes, k, m.tree.Root.Value) ==> Has(m, k))
+//@   ensures [C11 C12] loaded-only: jobj_kind(bytes, argof(m.tree.Comparator, 0), m.tree.Root.Value) == 3 ==> (forall i :: 0 <= i && i < N(m) ==> jobj_has(bytes, KeyAt(m, i), m.tree.Root.Value) && ValAt(m, i) == jobj_val(bytes, KeyAt(m, i), m.tree.Root.Value))
+//@   ensures [C12] null: jobj_kind(bytes, argof(m.tree.Comparator, 0), m.tree.Root.Value) == 2 ==> N(m) == 0
